@@ -266,7 +266,7 @@ Fixpoint safe_ty (fuel : nat) (e : env) (t : ty) : bool :=
 Definition ok_out {A} (r : dres A) : Prop := match r with DPanic _ | DHuge => False | _ => True end.
 Definition total_out {A} (r : dres A) : Prop := match r with DOk _ _ | DErr => True | _ => False end.
 
-(* ---------- C06: the wire types a reader of IDL type t admits ---------- *)
+(* ---------- C06: the wire types a reader of IDL type t accepts ---------- *)
 Definition adm_int (bits : Z) (ty : N) : bool :=
   (ty =? tZERO) || (ty =? tBYTE) || ((ty =? tSHORT) && (16 <=? bits)%Z) || ((ty =? tINT) && (32 <=? bits)%Z)
   || ((ty =? tLONG) && (64 <=? bits)%Z).
